@@ -20,7 +20,7 @@ import shutil
 import vlib
 
 SRC = vlib.BASE_SRC + ["trace/sink.cpp", "util/async_pipe.cpp", "util/buffer.cpp", "util/fs.cpp", "util/string.cpp", "util/scalable_integer.cpp"]
-MAXLINES = 16000          # per TLC run (a trace line costs up to ~3 states; TLC's limit is 65535 states per behaviour)
+MAXLINES = 36000          # estimated lines per TLC run (the estimate is generous; a trace line costs up to ~3 states, TLC's limit is 65535 states per behaviour)
 INV_ALL = ["MCommit", "MC1", "MC2", "MC3", "MC5", "MFront", "MPop", "MProc", "MBatchEnd", "MEnable", "MDisable", "ME2", "MD1", "MD2", "MD3"]
 MODELS = [  # cfg, required actions
     ("MC_race.cfg", INV_ALL),
@@ -134,16 +134,23 @@ def run(ctx):
         ev = [json.loads(x) for x in open(ctx.replay_path) if x.strip().startswith("{")]
         run_scripts(ctx, exe, [ops_of_events(ev)], "replay_seq")
         return
-    # 1. the design (bounded models run side by side)
+    # 1. the design: the bounded models run side by side, in the background of the conformance runs below
     quick = ctx.quick()
-    w = max(1, vlib.NCPU // 3)
-    with cf.ThreadPoolExecutor(max_workers=3) as ex:
-        futs = [ex.submit(ctx.tlc_mc, "TraceSink", "MC_TraceSink.tla", cfg, required_actions=req, workers=w, timeout=1500) for cfg, req in MODELS]
-        futs += [ex.submit(ctx.tlc_mc, "TraceSink", "MC_TraceSink.tla", cfg, expect=inv, coverage=False, workers=w) for cfg, inv in NONVAC]
-        if not quick:
-            futs.append(ex.submit(ctx.tlc_mc, "TraceSink", "MC_TraceSink.tla", "MC_thorough.cfg", coverage=False, workers=max(2, vlib.NCPU // 2), timeout=3000))
-        for f in futs:
-            f.result()
+    w = max(1, vlib.NCPU // 4)
+    ex = cf.ThreadPoolExecutor(max_workers=3)
+    futs = [ex.submit(ctx.tlc_mc, "TraceSink", "MC_TraceSink.tla", cfg, required_actions=req, workers=w, timeout=1500) for cfg, req in MODELS]
+    futs += [ex.submit(ctx.tlc_mc, "TraceSink", "MC_TraceSink.tla", cfg, expect=inv, coverage=False, workers=w) for cfg, inv in NONVAC]
+    if not quick:
+        futs.append(ex.submit(ctx.tlc_mc, "TraceSink", "MC_TraceSink.tla", "MC_thorough.cfg", coverage=False, workers=max(2, vlib.NCPU // 2), timeout=3000))
+    try:
+        conformance(ctx, exe, quick)
+    finally:
+        ex.shutdown(wait=True)
+    for f in futs:
+        f.result()
+
+
+def conformance(ctx, exe, quick):
     # 2. spec -> code
     s3 = unique_scripts(ctx.tlc_gen("TraceSink", "Gen_TraceSink.tla", "Gen_d3.cfg" if quick else "Gen_d4.cfg"))
     ctx.exhaustive = True
@@ -177,7 +184,7 @@ def run(ctx):
     # 3. code -> spec: seeded random concurrent histories
     plan = [("random", 70 if quick else 1500, 12, ""), ("race", 30 if quick else 800, 8, "race")]
     for tag, nexec, nsteps, mode in plan:
-        per = 35 if tag == "random" else 15
+        per = 35 if tag == "random" else 30
         done, k = 0, 0
         while done < nexec:
             n = min(per, nexec - done)
